@@ -270,6 +270,19 @@ Theorem C13_writable_example :
   In ("obj.response", "ObjectResponse")%string (scope_cells "error").
 Proof. exact writable_example. Qed.
 
+(* TIME / IP / BACKEND / ACL are in the model as OPAQUE cells ([TOpaque k], [VOpaque k payload]): values the
+   model copies and never inspects.  C13_args_by_value, C13_params_fresh, C13_call_frame, C13_set_frame ...
+   quantify over every type and value, so they now speak about all ten types of local.  Witnesses: a BACKEND
+   local copied and passed to a procedure that overwrites its parameter keeps its value - and before the repair
+   of parameter passing it did not (an opaque argument never needs a conversion, so the callee had the caller's cell). *)
+Theorem C13_opaque_example : opaque_example_stmt.
+Proof. exact opaque_example. Qed.
+
+Theorem C13_opaque_param_needs_copy :
+  exists r σ', call original std_ops prog_fop 10 sub_fop [0%nat] σ_op = OK (r, σ') /\
+               read σ' (NLocal 0) <> read σ_op (NLocal 0).
+Proof. exact param_alias_opaque_refutes. Qed.
+
 (* witnesses: the analysis distinguishes writers *)
 Theorem C13_header_set_effects_example :
   effects_of "header.set"%string = Some header_maps /\ ~ effect_free "header.set"%string.
@@ -313,3 +326,5 @@ Print Assumptions C13_unset_wildcard_case_insensitive.
 Print Assumptions C13_unset_wildcard_example.
 Print Assumptions C13_synthetic_frame.
 Print Assumptions C13_synthetic_example.
+Print Assumptions C13_opaque_example.
+Print Assumptions C13_opaque_param_needs_copy.
